@@ -84,13 +84,18 @@ def run_case(spec, ctx):
             subs, mots, inter, info = forcegen.build_revolute(rng, pair)
             det.update(info)
             a, b, w = rng.normal(size=3)
+            # 'hold' controllers: the set-point is the joint's own initial angle and rate (filled in after assembly), so the
+            # control force is exactly zero in the initial state - the Jacobians must be right there too
+            hold = law in ("PD", "PID") and rng.random() < 0.5
+            setp = [0.0, 0.0]
+            tau = (lambda t: np.array(setp)) if hold else (lambda t: np.array([a * np.sin(w * t), a * w * np.cos(w * t)]))
+            det["setpoint"] = "hold_initial_state" if hold else "trajectory"
             if law == "Motor":
-                elem = Motor(inter, (lambda t: a * np.sin(w * t)) if rng.random() < 0.5 else float(a))
+                elem = Motor(inter, (lambda t: a * np.sin(w * t)) if rng.random() < 0.5 else (float(a) if rng.random() < 0.7 else 0.0))
             elif law == "PD":
-                elem = PDcontroller(inter, float(loguniform(rng, 1e-2, 1e2)), float(loguniform(rng, 1e-2, 1e2)), lambda t: np.array([a * np.sin(w * t), a * w * np.cos(w * t)]))
+                elem = PDcontroller(inter, float(loguniform(rng, 1e-2, 1e2)), float(loguniform(rng, 1e-2, 1e2)), tau)
             else:
-                elem = PIDcontroller(inter, float(loguniform(rng, 1e-2, 1e2)), float(loguniform(rng, 1e-2, 1e2)), float(loguniform(rng, 1e-2, 1e2)),
-                                     lambda t: np.array([a * np.sin(w * t), a * w * np.cos(w * t)]))
+                elem = PIDcontroller(inter, float(loguniform(rng, 1e-2, 1e2)), float(loguniform(rng, 1e-2, 1e2)), float(loguniform(rng, 1e-2, 1e2)), tau)
             system.add(*subs)
             system.add(inter, elem)
         try:
@@ -104,10 +109,23 @@ def run_case(spec, ctx):
         ctx.cls(f"element:{spec['kind']}")
         label = spec["kind"]
         S = system
-        for k in range(3):
+        if kind == "act" and det.get("setpoint") == "hold_initial_state":
             S.reset()
-            t = t0 + float(rng.normal())
-            q, u, _, qc = gen.random_system_state(rng, S, perturb=0.3)
+            q0_, u0_ = np.asarray(S.q0, dtype=float), np.zeros(S.nu)
+            setp[0] = float(inter.l(t0, q0_[inter.qDOF]))
+            setp[1] = float(inter.l_dot(t0, q0_[inter.qDOF], u0_[inter.uDOF]))
+        for k in range(4):
+            S.reset()
+            if k == 3:
+                # the rest state: initial configuration, zero velocities, initial time (elements referred to the initial
+                # configuration exert exactly zero force here)
+                t, q, u, qc = t0, np.asarray(S.q0, dtype=float).copy(), np.zeros(S.nu), ["unit"]
+                ctx.cls("state:rest_at_initial_configuration")
+                if S.nla_tau and not np.any(S.la_tau(t, q, u)):
+                    ctx.cls("state:actuator_force_exactly_zero")
+            else:
+                t = t0 + float(rng.normal())
+                q, u, _, qc = gen.random_system_state(rng, S, perturb=0.3)
             if kind == "tpi" and inter.l(t, q[inter.qDOF]) < 0.05:
                 continue
             ctx.cls(f"state:{'nonunit' if 'nonunit' in qc else 'unit'}")
@@ -135,3 +153,11 @@ def run_case(spec, ctx):
                 so.jac_call(ctx, f"{label}.Wla_tau_u", lambda: S.Wla_tau_u(t, q, u), lambda x: f_tau(t, q, x), u, ex, _key, mon="D:Wla_tau_u")
     ctx.sig([det], nontrivial=True)
     ctx.sample(det)
+
+
+def finalize(agg):
+    reasons = []
+    for k in ("state:rest_at_initial_configuration", "state:actuator_force_exactly_zero"):
+        if agg["classes"].get(k, 0) == 0:
+            reasons.append(f"input class {k} never reached")
+    return reasons
